@@ -60,6 +60,12 @@ def canon_model(interp, v, depth=0):
         return ('bitarray', ''.join('1' if v.bit(i) else '0' for i in range(v.n)))
     if isinstance(v, BBytes):
         return v.to_host()
+    from .extern import PStr, SymBytes
+    if isinstance(v, PStr):
+        b = [v.view.bit(i) for i in range(v.view.n)]
+        return ('0b' + ''.join('1' if x else '0' for x in b)) if b else ''
+    if isinstance(v, SymBytes):
+        return v.as_bbytes().to_host()
     if isinstance(v, GenObj):
         return ('gen', [canon_model(interp, x) for x in interp.iterate(v)])
     if isinstance(v, (list, tuple)):
